@@ -224,6 +224,8 @@ struct Interp<'a> {
     dut: DutModel,
     lexical_var: HashMap<*const Expr, bool>,
     frames: Vec<Vec<(String, i64)>>,
+    /// per frame: the counter of the loop that opened it
+    frame_counters: Vec<Option<String>>,
     outputs: HashMap<String, OutVal>,
     first_layout: Vec<SigId>,
     calls: u64,
@@ -917,6 +919,12 @@ impl<'a> Interp<'a> {
                         self.probe(Probe::LetInWhileInLoop);
                     }
                     let v = self.eval(e).map_err(|s| self.stmt_err(s))?;
+                    if self.frame_counters.last().unwrap().as_deref() == Some(name.as_str()) {
+                        // how many iterations follow is deliberately left open
+                        return Err(Stop::Unspecified(format!(
+                            "`let {name}` rebinds the counter of the loop whose scope it lands in"
+                        )));
+                    }
                     self.set_var(name, v);
                 }
                 Stmt::Row(entries) => self.row(entries, stmt_id)?,
@@ -1006,6 +1014,7 @@ impl<'a> Interp<'a> {
         }
         let shadows = self.lookup_var(var).is_some();
         self.frames.push(vec![]);
+        self.frame_counters.push(Some(var.to_string()));
         self.loop_depth += 1;
         if self.loop_depth >= 3 {
             self.probe(Probe::LoopDepth3);
@@ -1027,6 +1036,7 @@ impl<'a> Interp<'a> {
         self.loop_depth -= 1;
         if result.is_ok() {
             self.frames.pop();
+            self.frame_counters.pop();
             if shadows {
                 self.probe(Probe::ShadowUncoveredOnLoopExit);
             }
@@ -1060,6 +1070,7 @@ pub fn run_reference(inp: &RefInput<'_>) -> RefRun {
         dut,
         lexical_var,
         frames: vec![vec![]],
+        frame_counters: vec![None],
         outputs: HashMap::new(),
         first_layout: vec![],
         calls: 0,
